@@ -3,7 +3,7 @@
 set -u
 D=${1:-/repo}
 OUT=$(mktemp /tmp/junit.XXXXXX.xml)
-cd "$D" && /venv/bin/python -m pytest -q -p no:cacheprovider -n 14 --timeout=900 --continue-on-collection-errors --junitxml=$OUT >/tmp/pytest_last.log 2>&1
+cd "$D" && OMP_NUM_THREADS=1 OPENBLAS_NUM_THREADS=1 MKL_NUM_THREADS=1 /venv/bin/python -m pytest -q -p no:cacheprovider -n 8 --timeout=900 --continue-on-collection-errors --junitxml=$OUT >/tmp/pytest_last.log 2>&1
 /venv/bin/python - "$OUT" <<'PY'
 import json,sys
 import xml.etree.ElementTree as ET
